@@ -438,6 +438,59 @@ class SampleRuleLayout(_SampleRule):
         yield "declared_out_axis_is_lane_axis", ax == pos
 
 
+@contract("genjax.pjax:VmapBatchHandler._handle_modular_vmap", ["C13", "C07", "C08"])
+class SampleRuleHistory(_NoReplay):
+    """history: the SAME handler fires several times with identical shapes (a kept function whose staged equation - and
+    with it this handler - is reused across calls).  Every firing binds a FRESH site (create_sample_primitive on the
+    re-shaped configuration): without seed a site's randomness is drawn when its keyless sampler is staged, so a
+    re-used bound sampler would replay the first call's noise through the new parameters"""
+
+    cases = ["three_firings_same_shapes"]
+
+    def call(self, case):
+        self.created = []
+        outer = self
+
+        self.sites = []
+
+        def fake_create(cfg):
+            outer.sites.append(cfg)  # one entry per site CREATED (a fresh keyless wrapper / staging)
+            k = len(outer.sites)
+
+            def prim(*args):
+                outer.created.append((cfg, args))
+                return "site-%d-result" % k
+
+            return prim
+
+        orig = pjax.create_sample_primitive
+        pjax.create_sample_primitive = fake_create
+        try:
+            h = pjax.VmapBatchHandler(_config((2,)))
+            rule = h.create_batch_rule()
+            outs = []
+            for k in range(3):
+                dummy = Tensor.fresh("dummy%d" % k, (4,), z3.IntSort())
+                mu, sg = value("mu%d" % k), value("sigma%d" % k)
+                outs.append((self.real(rule, (dummy, mu, sg), (0, None, None), axis_size=4, ctx="modular_vmap"), (mu, sg)))
+            return outs
+        finally:
+            pjax.create_sample_primitive = orig
+
+    def ensures(self, case, path):
+        yield "does_not_raise", path.outcome == "return"
+        if path.outcome != "return":
+            return
+        outs = path.value
+        yield "every_firing_creates_a_fresh_site(one_create_sample_primitive_per_firing)", len(self.sites) == 3
+        yield "every_firing_binds_its_site_once", len(self.created) == 3
+        if len(self.created) != 3:
+            return
+        yield "each_site_is_bound_on_that_firings_own_parameters", all(self.created[k][1] == outs[k][1] and all(a is b for a, b in zip(self.created[k][1], outs[k][1])) for k in range(3))
+        yield "each_site_has_the_lane_count_prepended_to_the_sample_shape", all(tuple(c.sample_shape) == (4, 2) for c, _ in self.created)
+        yield "each_firing_returns_its_own_sites_result", [o[0][0][0] for o in outs] == ["site-1-result", "site-2-result", "site-3-result"]
+
+
 @contract("genjax.pjax:LogDensityVmapHandler.create_batch_rule", ["C08"])
 class LogDensityRule(_NoReplay):
     """density sites are vectorised as jax.vmap of the density with the site's own batch axes (args and,
